@@ -71,6 +71,40 @@ func (cl *Cluster) RangeOf(key []byte) (start, end []byte) {
 	return mocktikv.MvccKey(region.StartKey).Raw(), mocktikv.MvccKey(region.EndKey).Raw()
 }
 
+// InnerSplitTopo is a Topo for request-attached split fates that cuts the region a request goes to either at
+// the request's first key (as Cluster does) or, every other time by hash, at a key of Keys strictly inside that
+// region - so that the keys of one batched or ranged request end up on both sides of the new border.
+type InnerSplitTopo struct {
+	Cl     *Cluster
+	Keys   [][]byte
+	H      *Hasher
+	Always bool // never fall back to the request's first key
+	n      int
+}
+
+// SplitAt implements Topo.
+func (t *InnerSplitTopo) SplitAt(key []byte) bool {
+	t.n++
+	tag := fmt.Sprintf("%q#%d", key, t.n)
+	if !t.Always && t.H.Intn("how"+tag, 2) == 0 {
+		return t.Cl.SplitAt(key)
+	}
+	lo, hi := t.Cl.RangeOf(key)
+	var cands [][]byte
+	for _, k := range t.Keys {
+		if bytes.Compare(k, lo) > 0 && (len(hi) == 0 || bytes.Compare(k, hi) < 0) {
+			cands = append(cands, k)
+		}
+	}
+	if len(cands) == 0 {
+		return t.Cl.SplitAt(key)
+	}
+	return t.Cl.SplitAt(cands[t.H.Intn("at"+tag, len(cands))])
+}
+
+// MoveLeaderOf implements Topo.
+func (t *InnerSplitTopo) MoveLeaderOf(key []byte) bool { return t.Cl.MoveLeaderOf(key) }
+
 // MergeAt merges the region containing key with its right neighbour.
 func (cl *Cluster) MergeAt(key []byte) bool {
 	region, _, _, _ := cl.C.GetRegionByKey(mocktikv.NewMvccKey(key))
